@@ -57,9 +57,6 @@ impl Machine for ChunkMachine<'_> {
                 continue;
             }
             for &kind in &self.fe.kinds {
-                if kind == Kind::InOut {
-                    continue;
-                }
                 v.push(p(l, kind));
             }
         }
